@@ -32,6 +32,9 @@ FIXED = [
  ("C02", "C02-splitter-blank-line", "multi-tree Newick splitter indexed position -1", "ReadUntilSemiColon panicked (index -1) on a line made of blanks only, e.g. the single byte \" \"; through ReadMultiTrees the whole process died"),
  ("C02", "C02-nexus-comment-eof-hang", "Nexus parser looped forever", "the Nexus parser never returned on \"#NEXUS[\" (unterminated comment: consumeComment did not leave on EOF)"),
  ("C02", "C02-nexus-format-char-index", "Nexus parser indexed an empty value", "the Nexus parser panicked (index 0 of empty) on \"#NEXUS BEGIN DATA;FORMAT GAP\" / \"FORMAT MISSING=\""),
+ ("C05", "C05-outgroup-zero-length-cut", "rooting on an outgroup separated by a zero-length branch", "`echo \"((a:1,b:1)0.8:0,c:1,d:1);\" | gotree reroot outgroup a b` gave ((c:1,d:1),(a:1,b:1)); the cut branch's length 0 and support 0.8 were lost (`if length > 0`)"),
+ ("C05", "C05-midpoint-zero-length-far-end", "midpoint rooting misplaced the root", "`echo \"((a:3,x:0):1,b:0,c:0);\" | gotree reroot midpoint` gave ((a:3,x:0):1,(b:0,c:0):2); (a-b path 4 became 6): MaxLengthPath stopped at an inner node when the path ended with zero-length branches"),
+ ("C05", "C05-midpoint-all-zero-panic", "midpoint rooting of a tree whose branch lengths are all 0", "`echo \"(a:0,b:0,c:0);\" | gotree reroot midpoint` panicked (index -1)"),
  ("C08", "C08-sametree-one-directional", "Compare reported a strict contraction", "tree.Compare reported a strict contraction of the reference as identical: ref ((a,b),c,d), compared (a,b,c,d) gave Tree1=1, Tree2=0, Sametree=true"),
  ("C09", "C09-threshold-rounding", "Consensus kept bipartitions whose frequency equals", "Consensus kept a split present in 29 of 50 trees at cutoff 0.58 (int(0.58*50) = 28), although 29/50 is not greater than 0.58"),
  ("C09", "C09-rooted-double-count", "Consensus counted the root bipartition", "Consensus counted the root split of a rooted input twice: the single tree ((t1,t2),(t0,t3)) at cutoff 0.5 gave the star tree; [(t0,t3,(t1,t2)), ((t1,t2),(t0,t3))] at cutoff 1 lost the split present in every tree"),
